@@ -48,6 +48,16 @@ def _block_chain(node, func):
     return chain[::-1]
 
 
+def _loops_of(node, func):
+    out = []
+    cur = getattr(node, '_parent', None)
+    while cur is not None and cur is not func:
+        if isinstance(cur, (ast.For, ast.AsyncFor, ast.While)):
+            out.append(cur)
+        cur = getattr(cur, '_parent', None)
+    return out
+
+
 def _stmt_of(node):
     cur = node
     while not isinstance(cur, ast.stmt):
@@ -150,7 +160,7 @@ def inline_temps(func, keep=(), names_only=False):
                 st.targets[0] is n or (isinstance(st.targets[0], (ast.Tuple, ast.List)) and
                                        any(e is n for e in st.targets[0].elts)))
             if simple:
-                bind_stmt[n.id] = (st, n)
+                bind_stmt.setdefault(n.id, []).append((st, n))
             else:
                 blocked.add(n.id)
         elif isinstance(n, ast.ExceptHandler) and n.name:
@@ -190,10 +200,7 @@ def inline_temps(func, keep=(), names_only=False):
         for x in ast.walk(n):
             if isinstance(x, ast.Name):
                 blocked.add(x.id)
-    cands = [nm for nm, (st, n) in bind_stmt.items() if nbind.get(nm) == 1 and nm not in blocked]
-    cands.sort(key=lambda nm: _pos(bind_stmt[nm][0]))
-    env = {}
-    inlined = []
+    # --- per binding: the reads it (alone) reaches
     chains = {}
 
     def chain_of(st):
@@ -202,55 +209,123 @@ def inline_temps(func, keep=(), names_only=False):
             chains[k] = _block_chain(st, f)
         return chains[k]
 
-    for nm in cands:
-        st, tgt = bind_stmt[nm]
+    def end_of(st):
+        return (getattr(st, 'end_lineno', st.lineno), getattr(st, 'end_col_offset', 0))
+
+    bindings = []                      # (pos, name, stmt, target node)
+    for nm, lst in bind_stmt.items():
+        if nm in blocked or len(lst) != nbind.get(nm):
+            continue                   # some binding of the name is not a plain assignment
+        for st, tgt in lst:
+            bindings.append((_pos(st), nm, st, tgt))
+    bindings.sort(key=lambda b: b[0])
+    by_name = {}
+    for b in bindings:
+        by_name.setdefault(b[1], []).append(b)
+    reads_of = {id(b[2]): [] for b in bindings}     # keyed by id(stmt) + name below
+    reads_key = {}
+    ok_name = set(by_name)
+    for nm in list(ok_name):
+        for r in loads.get(nm, []):
+            rst = _stmt_of(r)
+            cand = [b for b in by_name[nm] if end_of(b[2]) < _pos(r) and
+                    chain_of(rst)[:len(chain_of(b[2]))] == chain_of(b[2])]
+            if not cand:
+                ok_name.discard(nm)
+                break
+            b = cand[-1]
+            # another binding of the name between the chosen one and the read (even in a branch)?
+            if any(end_of(b[2]) < b2[0] < _pos(rst) or (b2[2] is rst and b2 is not b)
+                   for b2 in by_name[nm] if b2 is not b):
+                if not (len([b2 for b2 in by_name[nm] if b2[2] is rst]) and
+                        all(not (end_of(b[2]) < b2[0] < _pos(rst)) for b2 in by_name[nm]
+                            if b2 is not b)):
+                    ok_name.discard(nm)
+                    break
+            # loop-carried: the read sits in a loop that the chosen binding is outside of, and the
+            # name is re-bound somewhere in that loop (later iterations see that value)
+            carried = False
+            for lp in _loops_of(rst, f):
+                if any(x is lp for x in _loops_of(b[2], f)):
+                    continue
+                if any(any(x is lp for x in _loops_of(b2[2], f)) for b2 in by_name[nm]):
+                    carried = True
+            if carried:
+                ok_name.discard(nm)
+                break
+            reads_key.setdefault((id(b[2]), nm), []).append(r)
+    per_read = {}                      # id(Name load) -> expression replacing it
+    inlined = []
+
+    def subst_copy(node):
+        if isinstance(node, ast.AST):
+            if isinstance(node, ast.Name) and isinstance(node.ctx, ast.Load) and \
+                    id(node) in per_read:
+                new = _dc(per_read[id(node)])
+                for x in ast.walk(new):
+                    x.lineno, x.col_offset = node.lineno, node.col_offset
+                    x.end_lineno, x.end_col_offset = node.lineno, node.col_offset
+                return new
+            if isinstance(node, (ast.FunctionDef, ast.AsyncFunctionDef, ast.Lambda)) and \
+                    node is not f:
+                return _dc(node)
+            new = node.__class__()
+            for fld in node._fields:
+                if hasattr(node, fld):
+                    setattr(new, fld, subst_copy(getattr(node, fld)))
+            for at in node._attributes:
+                if hasattr(node, at):
+                    setattr(new, at, getattr(node, at))
+            return new
+        if isinstance(node, list):
+            return [subst_copy(x) for x in node]
+        return node
+
+    for pos, nm, st, tgt in bindings:
+        if nm not in ok_name:
+            continue
         val = st.value
         if any(isinstance(x, (ast.Yield, ast.YieldFrom, ast.Await, ast.NamedExpr, ast.Starred))
                for x in ast.walk(val)):
             continue
         t0 = st.targets[0]
         if t0 is tgt:
-            expr = val
+            raw = val
+            wrap = None
         else:
             idx = [i for i, e in enumerate(t0.elts) if e is tgt][0]
             if isinstance(val, (ast.Tuple, ast.List)) and len(val.elts) == len(t0.elts):
-                expr = val.elts[idx]
+                raw, wrap = val.elts[idx], None
             else:
-                expr = ast.Subscript(value=val, slice=ast.Constant(idx), ctx=ast.Load())
-        if names_only and not isinstance(expr, ast.Name):
+                raw, wrap = val, idx
+        if names_only and (wrap is not None or not isinstance(raw, ast.Name)):
             continue
+        expr = subst_copy(raw)
+        if wrap is not None:
+            expr = ast.Subscript(value=expr, slice=ast.Constant(wrap), ctx=ast.Load())
+        ast.fix_missing_locations(expr)
         if nm in mutated and not _is_alias_expr(expr):
             continue
-        expr = _Expand(env).visit(_dc(expr))
-        ast.fix_missing_locations(expr)
         if _size(expr) > MAX_NODES:
             continue
-        end = (getattr(st, 'end_lineno', st.lineno), getattr(st, 'end_col_offset', 0))
-        reads = loads.get(nm, [])
-        bchain = chain_of(st)
+        end = end_of(st)
+        reads = reads_key.get((id(st), nm), [])
         fv = {x.id for x in ast.walk(expr) if isinstance(x, ast.Name)}
         heap = {ast.unparse(x) for x in ast.walk(expr)
                 if isinstance(x, (ast.Attribute, ast.Subscript))}
         ok = True
         last = end
         for r in reads:
-            if _pos(r) <= end:
-                ok = False
-                break
-            rst = _stmt_of(r)
-            if chain_of(rst)[:len(bchain)] != bchain:
-                ok = False
-                break
             # what the statement of the read does itself happens after the read
-            last = max(last, _pos(rst))
-        if ok and reads:
-            for pos, name in name_stores:
-                if end < pos < last and name in fv:
+            last = max(last, _pos(_stmt_of(r)))
+        if reads:
+            for p2, name in name_stores:
+                if end < p2 < last and name in fv:
                     ok = False
                     break
             if ok:
-                for pos, tx, cont in heap_stores:
-                    if not (end < pos < last):
+                for p2, tx, cont in heap_stores:
+                    if not (end < p2 < last):
                         continue
                     if any(h == tx or h.startswith(tx) or tx.startswith(h + '[') or
                            tx.startswith(h + '.') for h in heap):
@@ -264,29 +339,44 @@ def inline_temps(func, keep=(), names_only=False):
                 # calls made for their effect: `self.m(..)` may change any self.<attr> the
                 # expression reads, `f(x)` / `x.m()` may update x in place
                 heap_roots = {h.split('.')[0].split('[')[0] for h in heap}
-                for pos, ev in call_events:
-                    if end < pos < last and ((ev & fv & heap_roots) or
-                                             (ev - {'self', 'cls'}) & fv):
+                for p2, ev in call_events:
+                    if end < p2 < last and ((ev & fv & heap_roots) or
+                                            (ev - {'self', 'cls'}) & fv):
                         ok = False
                         break
         if not ok:
             continue
-        env[nm] = expr
+        for r in reads:
+            per_read[id(r)] = expr
         inlined.append((nm, st, tgt, bool(reads)))
-    f = _Expand(env).generic_visit(f)
+    f2 = subst_copy(f)
+    # drop the bindings (in the copy: find them by position)
+    drop_pos = {}
     for nm, st, tgt, was_read in inlined:
+        drop_pos.setdefault((_pos(st), end_of(st)), []).append((nm, was_read, st.targets[0] is tgt))
+    for st in [x for x in ast.walk(f2) if isinstance(x, ast.Assign)]:
+        key = (_pos(st), end_of(st))
+        if key not in drop_pos or len(st.targets) != 1:
+            continue
+        infos = drop_pos[key]
         t0 = st.targets[0]
-        if t0 is tgt:
-            _drop(st, keep_value=not was_read)
-        else:
-            tgt._inlined = True
-            if all(getattr(e, '_inlined', False) for e in t0.elts):
-                _drop(st, keep_value=False)
-    ast.fix_missing_locations(f)
-    set_parents(f)
-    f._parent = None
-    f._inlined_names = [nm for nm, *_ in inlined]
-    return f
+        if isinstance(t0, ast.Name):
+            if any(nm == t0.id for nm, _, whole in infos if whole):
+                st._drop = (True, not [w for nm, w, _ in infos if nm == t0.id][0])
+        elif isinstance(t0, (ast.Tuple, ast.List)):
+            names = [e.id for e in t0.elts if isinstance(e, ast.Name)]
+            if len(names) == len(t0.elts) and all(any(nm == x for nm, _, _ in infos)
+                                                   for x in names):
+                st._drop = (True, False)
+    set_parents(f2)
+    f2._parent = None
+    for st in [x for x in ast.walk(f2) if getattr(x, '_drop', None)]:
+        _drop(st, keep_value=st._drop[1])
+    ast.fix_missing_locations(f2)
+    set_parents(f2)
+    f2._parent = None
+    f2._inlined_names = sorted({nm for nm, *_ in inlined})
+    return f2
 
 
 def _drop(st, keep_value):
